@@ -124,7 +124,7 @@ def judge_trusted(case, impl, model):
             m_tru = None       # garbage documents: the model raises in field order, the code in document order
         if m_tru:
             msgs.append("trusted deserialize: " + m_tru)
-    if mapper_free and in_scope and not offpath:
+    if mapper_free and in_scope and not offpath and reg and "ok" in reg:
         for key in ("serX", "serY"):
             if key in model and key in impl:
                 d = S.res_same(cls, model[key], impl[key], doc=True)
@@ -163,8 +163,8 @@ def judge_trusted(case, impl, model):
                 if sx and "ok" in sx:
                     if not sy or "ok" not in sy:
                         what, detail = "serialize-raises", f"Serializer(trusted instance) raises {sy.get('err')}: {sy.get('msg')}"
-                    elif not S.same_doc(cls, sx["ok"], sy["ok"]):
-                        loose = S.same_doc(cls, S.loose_doc(sx["ok"]), S.loose_doc(sy["ok"]))
+                    elif not S.same_doc(cls, sx["ok"], sy["ok"], mapped=not mapper_free):
+                        loose = S.same_doc(cls, S.loose_doc(sx["ok"]), S.loose_doc(sy["ok"]), mapped=not mapper_free)
                         what = "serialization-number-spelling" if loose else "serialization-differs"
                         detail = json.dumps(sx["ok"])[:150] + " vs " + json.dumps(sy["ok"])[:150]
             if what:
@@ -263,7 +263,7 @@ def judge_fast(case, impl, model):
     fast, reg = impl.get("fast"), impl.get("regular")
     m_fast = None
     if impl.get("created") and model.get("created") and fast is not None:
-        m_fast = S.res_same(cls, model.get("fast"), fast, doc=True)
+        m_fast = S.res_same(cls, model.get("fast"), fast, doc=True, mapped=not mapper_free)
         if m_fast:
             msgs.append("fast serialize: " + m_fast)
     if mapper_free and in_scope and reg is not None and "regular" in model:
@@ -282,9 +282,10 @@ def judge_fast(case, impl, model):
         else:
             a = drop_top_nulls(fast["ok"]) if case["serializeNone"] else fast["ok"]
             detail = json.dumps(reg["ok"])[:150] + " vs " + json.dumps(fast["ok"])[:150]
-            if not S.same_doc(cls, a, reg["ok"]):
+            if not S.same_doc(cls, a, reg["ok"], mapped=not mapper_free):
                 what = "fast-differs"
-            elif impl.get("via_serializer") and "ok" in impl["via_serializer"] and not S.same_doc(cls, impl["via_serializer"]["ok"], fast["ok"]):
+            elif impl.get("via_serializer") and "ok" in impl["via_serializer"] and not S.same_doc(
+                    cls, impl["via_serializer"]["ok"], fast["ok"], mapped=not mapper_free):
                 what = "serializer-wrapper-differs"
         if what:
             tag_list = [t for t in model.get("fastDefects", []) if t != "fast:serialize-none"]
